@@ -95,15 +95,9 @@ func (ll *LevelList) Get(key []byte) (kv.Entry, error) {
 }
 
 func (ll *LevelList) ScanPrefix(prefix []byte, errOut *error) iter.Seq[kv.Entry] {
-	tables := slices.Collect(ll.AllTablesForPrefix(prefix))
-	iters := make([]iter.Seq[kv.Entry], len(tables))
-	for i, table := range tables {
-		iters[i] = table.ScanPrefix(prefix, errOut)
-	}
-
 	// Return the merged entries without deleted records
 	return func(yield func(kv.Entry) bool) {
-		for entry := range kv.MergeEntries(iters) {
+		for entry := range ll.ScanPrefixWithTombstones(prefix, errOut) {
 			// Skip deleted entries
 			if entry.IsDelete() {
 				continue
@@ -113,6 +107,18 @@ func (ll *LevelList) ScanPrefix(prefix []byte, errOut *error) iter.Seq[kv.Entry]
 			}
 		}
 	}
+}
+
+// ScanPrefixWithTombstones merges the matching entries of all tables keeping the
+// newest version of each key, delete markers included, so that the result can be
+// merged with newer data.
+func (ll *LevelList) ScanPrefixWithTombstones(prefix []byte, errOut *error) iter.Seq[kv.Entry] {
+	tables := slices.Collect(ll.AllTablesForPrefix(prefix))
+	iters := make([]iter.Seq[kv.Entry], len(tables))
+	for i, table := range tables {
+		iters[i] = table.ScanPrefix(prefix, errOut)
+	}
+	return kv.MergeEntries(iters)
 }
 
 // A worst case estimate of the amount of extra space used. Zero means
